@@ -2070,6 +2070,14 @@ func c12R4(c *Ctx, fns []*ssa.Function) {
 			pushNil, pushNonNil = append(pushNil, n...), append(pushNonNil, nn...)
 		}
 	}
+	// `switch err := push(); { case errors.Is(err, errSkip): return nil; case err != nil: … }`: errors.Is(err, X)==true implies err != nil
+	for _, p := range pushCalls {
+		if e := ErrOf(p); e != nil {
+			al := Aliases(e)
+			t, _, _ := CallTests(push, "errors.Is", func(call *ssa.Call) bool { return al[call.Call.Args[0]] })
+			pushNonNil = append(pushNonNil, t...)
+		}
+	}
 	forceT, _ := BoolTests(push, c11FieldReads(push, "~/content/file.Store.ForceCAS"))
 	atoms := c11SuccessAtoms(push)
 	ok := len(atoms) > 0 && c11AllAtomsPass(atoms, func() *cut { return newCut().Calls(rdCalls).Edges(forceT...).Edges(pushNonNil...) })
@@ -2083,9 +2091,13 @@ func c12R4(c *Ctx, fns []*ssa.Function) {
 	}
 	// tolerated sentinels inside the restorer
 	n := 0
-	for _, call := range Calls(RD, func(string) bool { return true }) {
+	var rdCallsAll []ssa.CallInstruction
+	for _, f := range append([]*ssa.Function{RD}, Anons(RD)...) {
+		rdCallsAll = append(rdCallsAll, Calls(f, func(string) bool { return true })...)
+	}
+	for _, call := range rdCallsAll {
 		g := StaticCallee(call)
-		if g == nil || ErrResultIndex(g.Signature) < 0 || fnPkgPath(g) != pkgPath(c11Pkg) {
+		if g == nil || ErrResultIndex(g.Signature) < 0 || fnPkgPath(g) != pkgPath(c11Pkg) || (call.Parent() != RD && g.Parent() == call.Parent()) {
 			continue
 		}
 		// the per-successor step: a closure of the restorer or an in-package helper that reaches the push helper
@@ -2100,7 +2112,13 @@ func c12R4(c *Ctx, fns []*ssa.Function) {
 			continue
 		}
 		n++
-		r := ErrFlow(call, ErrFlowOpts{Tolerated: []string{"~/errdef.ErrNotFound", "~/content/file.ErrDuplicateName"}})
+		tol := []string{"~/errdef.ErrNotFound", "~/content/file.ErrDuplicateName"}
+		r := ErrFlow(call, ErrFlowOpts{Tolerated: tol})
+		if call.Parent() != RD && ErrResultIndex(call.Parent().Signature) < 0 {
+			// inside the yield closure of a range-over-func loop
+			r.OK, r.Detail = c12ErrSurfacesFromYield(call, tol)
+			r.How = r.Detail
+		}
 		c.Check(R4, rn+"|tolerates-only-notfound-and-duplicate", call.Pos(), r.OK, ifelse(r.OK, r.How, "the restorer swallows an error other than ErrNotFound / ErrDuplicateName: a duplicate that could not be written is silently missing: "+r.Detail))
 	}
 	if n == 0 {
@@ -2115,6 +2133,87 @@ func c12R4(c *Ctx, fns []*ssa.Function) {
 // name already exists).  Same content under a different name must still be
 // materialised, so a skip depending on the digest, a counter, a set of already
 // restored contents … loses files.
+// c12IterBody describes "the body executed once per element of a collection":
+// a natural range loop, or the synthesized yield closure of a range-over-func
+// loop (for x := range slices.Values(xs) / slices.All(xs)).
+type c12IterBody struct {
+	Fn      *ssa.Function     // function holding the body (the enclosing function, or the yield closure)
+	Entry   *ssa.BasicBlock   // first block of the body
+	Next    []ssa.Instruction // reaching one of these means "next element" (loop header / `return true`)
+	In      func(*ssa.BasicBlock) bool
+	IsYield bool
+}
+
+// c12IterBodyOver finds the per-element body of the iteration over coll in fn.
+func c12IterBodyOver(fn *ssa.Function, coll ssa.Value) *c12IterBody {
+	for _, l := range Loops(fn) {
+		if r, _, body, _, ok := l.RangeIndex(); ok && c11SameRoots(r, coll) {
+			ll := l
+			return &c12IterBody{Fn: fn, Entry: body.To, Next: []ssa.Instruction{l.Header.Instrs[0]}, In: func(b *ssa.BasicBlock) bool { return ll.Blocks[b] && b != ll.Header }}
+		}
+	}
+	// range-over-func: seq := slices.Values(coll) / slices.All(coll); seq(yield)
+	for _, call := range Calls(fn, func(string) bool { return true }) {
+		cc := call.Common()
+		if cc.IsInvoke() || StaticCallee(call) != nil || len(cc.Args) != 1 {
+			continue
+		}
+		mc, ok := cc.Args[0].(*ssa.MakeClosure)
+		if !ok {
+			continue
+		}
+		fromColl := false
+		for _, r := range Roots(cc.Value) {
+			if pc, ok := r.(*ssa.Call); ok {
+				switch CalleeName(pc) {
+				case "slices.Values", "slices.All", "slices.Backward", "maps.Values", "maps.Keys", "maps.All":
+					if len(pc.Call.Args) == 1 && c11SameRoots(pc.Call.Args[0], coll) {
+						fromColl = true
+					}
+				}
+			}
+		}
+		if !fromColl {
+			continue
+		}
+		Y := mc.Fn.(*ssa.Function)
+		var next []ssa.Instruction
+		for _, ret := range Returns(Y) {
+			if len(ret.Results) == 1 {
+				if k, isConst := ret.Results[0].(*ssa.Const); isConst && k.Value != nil && constant.BoolVal(k.Value) {
+					next = append(next, ret)
+				}
+			}
+		}
+		if len(Y.Blocks) == 0 || len(next) == 0 {
+			continue
+		}
+		return &c12IterBody{Fn: Y, Entry: Y.Blocks[0], Next: next, In: func(*ssa.BasicBlock) bool { return true }, IsYield: true}
+	}
+	return nil
+}
+
+// c12IsRangeFuncBookkeeping: a test of the synthesized jump$N state of a yield closure.
+func c12IsRangeFuncBookkeeping(cond ssa.Value) bool {
+	var leaves []ssa.Value
+	c11Operands(cond, &leaves, map[ssa.Value]bool{}, 0)
+	found := false
+	for _, lf := range leaves {
+		switch u := lf.(type) {
+		case *ssa.Const:
+		case *ssa.UnOp:
+			fv, ok := u.X.(*ssa.FreeVar)
+			if !ok || !strings.HasPrefix(fv.Name(), "jump$") {
+				return false
+			}
+			found = true
+		default:
+			return false
+		}
+	}
+	return found
+}
+
 func c12R4EveryNamedSuccessor(c *Ctx, R4 string, RD *ssa.Function, rdCallees map[*ssa.Function]bool, pushCalls []ssa.CallInstruction) {
 	rn := FnName(RD)
 	key := rn + "|every-named-successor-restored"
@@ -2122,25 +2221,23 @@ func c12R4EveryNamedSuccessor(c *Ctx, R4 string, RD *ssa.Function, rdCallees map
 	for _, sc := range CallsTo(RD, "~/content.Successors") {
 		succ = ResultOf(sc, 0)
 	}
-	var loop *Loop
-	var body Edge
-	for _, l := range Loops(RD) {
-		if r, _, b, _, ok := l.RangeIndex(); ok && succ != nil && c11SameRoots(r, succ) {
-			loop, body = l, b
-		}
+	var it *c12IterBody
+	if succ != nil {
+		it = c12IterBodyOver(RD, succ)
 	}
-	if loop == nil {
-		c.Undecided(R4, key, RD.Pos(), "no range loop over the result of content.Successors in the restorer; shape not recognised")
+	if it == nil {
+		c.Undecided(R4, key, RD.Pos(), "no loop (range, or range over slices.Values/All) over the result of content.Successors in the restorer; shape not recognised")
 		return
 	}
+	F := it.Fn
 	pushHelpers := map[*ssa.Function]bool{}
 	for _, p := range pushCalls {
 		pushHelpers[StaticCallee(p)] = true
 	}
 	var steps []ssa.Instruction
-	for _, call := range Calls(RD, func(string) bool { return true }) {
+	for _, call := range Calls(F, func(string) bool { return true }) {
 		g := StaticCallee(call)
-		if g == nil || !loop.Contains(call.(ssa.Instruction)) {
+		if g == nil || !it.In(call.(ssa.Instruction).Block()) {
 			continue
 		}
 		if _, isDefer := call.(*ssa.Defer); isDefer {
@@ -2153,15 +2250,43 @@ func c12R4EveryNamedSuccessor(c *Ctx, R4 string, RD *ssa.Function, rdCallees map
 		}
 	}
 	if len(steps) == 0 {
-		c.Violation(R4, key, blockPos(loop.Header), "the loop over the successors never reaches the push helper: no duplicate is restored")
+		c.Violation(R4, key, blockPos(it.Entry), "the loop over the successors never reaches the push helper: no duplicate is restored")
 		return
 	}
-	header := loop.Header.Instrs[0]
 	cutS := newCut().Instr(steps...)
-	// blocks on a skip path: reachable from the body entry and reaching the next iteration, both without the restore step
+	reachesNext := func(b *ssa.BasicBlock) bool {
+		for _, n := range it.Next {
+			if reach(b, 0, n, cutS) {
+				return true
+			}
+		}
+		return false
+	}
 	title := ""
 	if k, ok := c.P.Obj("github.com/opencontainers/image-spec/specs-go/v1", "AnnotationTitle").(*types.Const); ok {
 		title = strings.Trim(k.Val().ExactString(), "\"")
+	}
+	isStore := func(v ssa.Value) bool { // the restorer's receiver, directly or as captured by the yield closure
+		if RD.Signature.Recv() == nil || len(RD.Params) == 0 {
+			return false
+		}
+		if v == ssa.Value(RD.Params[0]) {
+			return true
+		}
+		if ld, ok := v.(*ssa.UnOp); ok && ld.Op == token.MUL {
+			if fv, ok := ld.X.(*ssa.FreeVar); ok {
+				for _, bnd := range freeVarBindings(fv) {
+					if a, ok := bnd.(*ssa.Alloc); ok {
+						for _, st := range storesTo(a) {
+							if st.Val == ssa.Value(RD.Params[0]) {
+								return true
+							}
+						}
+					}
+				}
+			}
+		}
+		return false
 	}
 	nameOnly := func(cond ssa.Value) (bool, string, bool) {
 		switch strip(cond).(type) {
@@ -2175,30 +2300,31 @@ func c12R4EveryNamedSuccessor(c *Ctx, R4 string, RD *ssa.Function, rdCallees map
 			switch u := lf.(type) {
 			case *ssa.Const:
 				continue
-			case *ssa.Parameter:
-				if len(RD.Params) > 0 && u == RD.Params[0] && RD.Signature.Recv() != nil {
-					continue // the store itself
-				}
 			case *ssa.Lookup:
 				if k, ok := constString(u.Index); ok && title != "" && k == title && strings.HasSuffix(fieldOfFuncValue(u.X), "Descriptor.Annotations") {
 					continue // the successor's title annotation
 				}
+			}
+			if isStore(lf) {
+				continue
 			}
 			return false, describe(lf), true
 		}
 		return true, "", true
 	}
 	ok := true
-	for b := range loop.Blocks {
-		ifi, isIf := b.Instrs[len(b.Instrs)-1].(*ssa.If)
-		if !isIf || b == loop.Header {
+	for _, b := range F.Blocks {
+		if !it.In(b) || len(b.Instrs) == 0 {
 			continue
 		}
-		onSkipPath := (b == body.To || reach(body.To, 0, b.Instrs[0], cutS)) && reach(b, 0, header, cutS)
+		ifi, isIf := b.Instrs[len(b.Instrs)-1].(*ssa.If)
+		if !isIf {
+			continue
+		}
+		onSkipPath := (b == it.Entry || reach(it.Entry, 0, b.Instrs[0], cutS)) && reachesNext(b)
 		if !onSkipPath {
 			continue
 		}
-		// the If itself must be reachable in its block without the restore step
 		stepBefore := false
 		for _, in := range b.Instrs {
 			if cutS.instrs[in] {
@@ -2206,6 +2332,9 @@ func c12R4EveryNamedSuccessor(c *Ctx, R4 string, RD *ssa.Function, rdCallees map
 			}
 		}
 		if stepBefore {
+			continue
+		}
+		if it.IsYield && c12IsRangeFuncBookkeeping(ifi.Cond) {
 			continue
 		}
 		good, what, shape := nameOnly(ifi.Cond)
@@ -2221,8 +2350,56 @@ func c12R4EveryNamedSuccessor(c *Ctx, R4 string, RD *ssa.Function, rdCallees map
 		}
 	}
 	if ok {
-		c.OK(R4, key, blockPos(loop.Header), "every path through the loop body that skips the restore step is decided only by the successor's title (empty / already exists)")
+		c.OK(R4, key, blockPos(it.Entry), "every path through the loop body that skips the restore step is decided only by the successor's title (empty / already exists)")
 	}
+}
+
+// c12ErrSurfacesFromYield: inside the yield closure of a range-over-func loop an
+// error "returns" from the enclosing function by being stored into the captured
+// result variable and stopping the iteration (return false).  Every non-nil,
+// non-tolerated path must do that.
+func c12ErrSurfacesFromYield(call ssa.CallInstruction, tolerated []string) (bool, string) {
+	Y := call.Parent()
+	e := ErrOf(call)
+	if e == nil {
+		return false, "error result is discarded"
+	}
+	al := Aliases(e)
+	_, nonNil, _ := NilTests(Y, al)
+	if len(nonNil) == 0 {
+		return false, "error value is never tested against nil"
+	}
+	cutT := newCut().Edges(toleratedEdges(Y, al, tolerated)...)
+	var stores []ssa.Instruction
+	AllInstrs(Y, func(in ssa.Instruction) {
+		if st, ok := in.(*ssa.Store); ok {
+			if _, isFV := st.Addr.(*ssa.FreeVar); isFV && c11DerivesFrom(st.Val, al) {
+				stores = append(stores, st)
+			}
+		}
+	})
+	cutS := newCut().Edges(toleratedEdges(Y, al, tolerated)...).Instr(stores...)
+	_ = cutT
+	for _, ne := range nonNil {
+		for _, ret := range Returns(Y) {
+			if reach(ne.To, 0, ret, cutS) {
+				return false, "after the error is found non-nil (and not a tolerated sentinel) the loop body can finish without recording it in the enclosing function's result"
+			}
+		}
+	}
+	for _, st := range stores {
+		for _, ret := range Returns(Y) {
+			if reach(st.Block(), instrIndex(st)+1, ret, nil) {
+				if k, isConst := ret.Results[0].(*ssa.Const); !isConst || k.Value == nil || constant.BoolVal(k.Value) {
+					return false, "the error is recorded but the iteration is not stopped"
+				}
+			}
+		}
+	}
+	if len(stores) == 0 {
+		return false, "the error is never recorded in the enclosing function's result"
+	}
+	return true, "recorded in the enclosing function's result and the iteration stopped; tolerated: " + strings.Join(tolerated, ", ")
 }
 
 var c12Mutants = []Mutant{
